@@ -295,7 +295,8 @@ CLAIMED["C10"] = dict(
          "ANY set of AT TIME controls at distinct instants (C10_control_set_survives_pause: every solved step of both parts shows the command of "
          "the latest control reached, nothing before the pause is revisited, no changing instant after it is stepped over; with coinciding instants "
          "too: C10_all_time_controls_survive_pause; and for controls AND TIME >= rules together the restart state is PROVED identical to the paused "
-         "state, with the specified statuses at every step and every time of both parts: C10_controls_and_rules_survive_pause); "
+         "state, with the specified statuses at every step and every time of both parts, and the concatenated solved times strictly increase: "
+         "C10_controls_and_rules_survive_pause, C10_controls_and_rules_times_increase); "
          "for the same fragment the solved times are PROVED strictly "
          "increasing in one run and across a pause (a time is never revisited); with the index "
          "restarted at 0 (the behaviour before the fix) the model provably steps back to t = 0. Ties decided inside coqc: for generated "
